@@ -109,6 +109,12 @@ fn distance_order(lhs: f32, rhs: f32) -> Ordering {
 
 #[inline]
 fn cancellation_requested(cancelled: Option<&AtomicBool>) -> bool {
+    #[cfg(kyrodb_verif)]
+    if let Some(flag) = cancelled {
+        if crate::verif_hooks::cancel_point() {
+            flag.store(true, std::sync::atomic::Ordering::Relaxed);
+        }
+    }
     cancelled
         .map(|flag| flag.load(std::sync::atomic::Ordering::Relaxed))
         .unwrap_or(false)
